@@ -68,87 +68,9 @@ func decodeStream(stream []byte, snappy bool) (hello *wire.Hello, reqs []decoded
 		if err != nil {
 			return hello, reqs, fmt.Errorf("frame %d at offset %d: %w", len(reqs), off, err)
 		}
-		d := decodedReq{CallID: req.Header.GetCallId(), Method: req.Header.GetMethodName(), Param: req.Param, Prio: req.Header.GetPriority()}
-		if req.Header.CallId == nil {
-			return hello, reqs, fmt.Errorf("frame %d: no call id", len(reqs))
-		}
-		cb := req.CellBlock
-		if len(cb) > 0 && snappy {
-			plain, _, err := wire.ReadBlocks(cb)
-			if err != nil {
-				return hello, reqs, fmt.Errorf("frame %d: compressed cellblock: %w", len(reqs), err)
-			}
-			cb = plain
-		}
-		cells, err := wire.DecodeAllCells(cb)
+		d, err := decodeRequest(req, snappy, len(reqs))
 		if err != nil {
-			return hello, reqs, fmt.Errorf("frame %d (call %d): cellblock: %w", len(reqs), d.CallID, err)
-		}
-		d.Cells = cells
-		switch d.Method {
-		case "Get":
-			m := &pb.GetRequest{}
-			if err := proto.Unmarshal(req.Param, m); err != nil {
-				return hello, reqs, fmt.Errorf("frame %d: GetRequest: %w", len(reqs), err)
-			}
-			d.Rows = append(d.Rows, m.GetGet().GetRow())
-			d.Markers = append(d.Markers, markerOfPBGet(m.GetGet()))
-		case "Mutate":
-			m := &pb.MutateRequest{}
-			if err := proto.Unmarshal(req.Param, m); err != nil {
-				return hello, reqs, fmt.Errorf("frame %d: MutateRequest: %w", len(reqs), err)
-			}
-			if int(m.GetMutation().GetAssociatedCellCount()) != len(cells) {
-				return hello, reqs, fmt.Errorf("frame %d: associated_cell_count=%d, cellblock holds %d cells", len(reqs), m.GetMutation().GetAssociatedCellCount(), len(cells))
-			}
-			d.Rows = append(d.Rows, m.GetMutation().GetRow())
-			d.Markers = append(d.Markers, markerOfPBMutation(m.GetMutation(), cells))
-		case "Multi":
-			m := &pb.MultiRequest{}
-			if err := proto.Unmarshal(req.Param, m); err != nil {
-				return hello, reqs, fmt.Errorf("frame %d: MultiRequest: %w", len(reqs), err)
-			}
-			off := 0
-			for _, ra := range m.GetRegionAction() {
-				for _, a := range ra.GetAction() {
-					if a.Get != nil {
-						d.Rows = append(d.Rows, a.Get.GetRow())
-						d.Markers = append(d.Markers, markerOfPBGet(a.Get))
-						continue
-					}
-					n := int(a.GetMutation().GetAssociatedCellCount())
-					if off+n > len(cells) {
-						return hello, reqs, fmt.Errorf("frame %d: multi actions need more cells than the cellblock holds (%d)", len(reqs), len(cells))
-					}
-					mine := cells[off : off+n]
-					off += n
-					for _, ce := range mine {
-						if !bytes.Equal(ce.Row, a.GetMutation().GetRow()) {
-							return hello, reqs, fmt.Errorf("frame %d: cell row %q under mutation for row %q", len(reqs), ce.Row, a.GetMutation().GetRow())
-						}
-					}
-					d.Rows = append(d.Rows, a.GetMutation().GetRow())
-					d.Markers = append(d.Markers, markerOfPBMutation(a.GetMutation(), mine))
-				}
-			}
-			if off != len(cells) {
-				return hello, reqs, fmt.Errorf("frame %d: multi cell counts cover %d of %d cells", len(reqs), off, len(cells))
-			}
-		case "Scan":
-			m := &pb.ScanRequest{}
-			if err := proto.Unmarshal(req.Param, m); err != nil {
-				return hello, reqs, fmt.Errorf("frame %d: ScanRequest: %w", len(reqs), err)
-			}
-			d.Rows = append(d.Rows, m.GetScan().GetStartRow())
-			mk := ""
-			for _, at := range m.GetScan().GetAttribute() {
-				if at.GetName() == "marker" {
-					mk = string(at.GetValue())
-				}
-			}
-			d.Markers = append(d.Markers, mk)
-		default:
-			return hello, reqs, fmt.Errorf("frame %d: unknown method %q", len(reqs), d.Method)
+			return hello, reqs, err
 		}
 		reqs = append(reqs, d)
 	}
@@ -180,4 +102,91 @@ func markerOfPBMutation(m *pb.MutationProto, cells []wire.Cell) string {
 		}
 	}
 	return ""
+}
+
+// decodeRequest decodes one request frame with the independent codec.
+func decodeRequest(req *wire.Request, snappy bool, idx int) (decodedReq, error) {
+	d := decodedReq{CallID: req.Header.GetCallId(), Method: req.Header.GetMethodName(), Param: req.Param, Prio: req.Header.GetPriority()}
+	if req.Header.CallId == nil {
+		return d, fmt.Errorf("frame %d: no call id", idx)
+	}
+	cb := req.CellBlock
+	if len(cb) > 0 && snappy {
+		plain, _, err := wire.ReadBlocks(cb)
+		if err != nil {
+			return d, fmt.Errorf("frame %d: compressed cellblock: %w", idx, err)
+		}
+		cb = plain
+	}
+	cells, err := wire.DecodeAllCells(cb)
+	if err != nil {
+		return d, fmt.Errorf("frame %d (call %d): cellblock: %w", idx, d.CallID, err)
+	}
+	d.Cells = cells
+	switch d.Method {
+	case "Get":
+		m := &pb.GetRequest{}
+		if err := proto.Unmarshal(req.Param, m); err != nil {
+			return d, fmt.Errorf("frame %d: GetRequest: %w", idx, err)
+		}
+		d.Rows = append(d.Rows, m.GetGet().GetRow())
+		d.Markers = append(d.Markers, markerOfPBGet(m.GetGet()))
+	case "Mutate":
+		m := &pb.MutateRequest{}
+		if err := proto.Unmarshal(req.Param, m); err != nil {
+			return d, fmt.Errorf("frame %d: MutateRequest: %w", idx, err)
+		}
+		if int(m.GetMutation().GetAssociatedCellCount()) != len(cells) {
+			return d, fmt.Errorf("frame %d: associated_cell_count=%d, cellblock holds %d cells", idx, m.GetMutation().GetAssociatedCellCount(), len(cells))
+		}
+		d.Rows = append(d.Rows, m.GetMutation().GetRow())
+		d.Markers = append(d.Markers, markerOfPBMutation(m.GetMutation(), cells))
+	case "Multi":
+		m := &pb.MultiRequest{}
+		if err := proto.Unmarshal(req.Param, m); err != nil {
+			return d, fmt.Errorf("frame %d: MultiRequest: %w", idx, err)
+		}
+		off := 0
+		for _, ra := range m.GetRegionAction() {
+			for _, a := range ra.GetAction() {
+				if a.Get != nil {
+					d.Rows = append(d.Rows, a.Get.GetRow())
+					d.Markers = append(d.Markers, markerOfPBGet(a.Get))
+					continue
+				}
+				n := int(a.GetMutation().GetAssociatedCellCount())
+				if off+n > len(cells) {
+					return d, fmt.Errorf("frame %d: multi actions need more cells than the cellblock holds (%d)", idx, len(cells))
+				}
+				mine := cells[off : off+n]
+				off += n
+				for _, ce := range mine {
+					if !bytes.Equal(ce.Row, a.GetMutation().GetRow()) {
+						return d, fmt.Errorf("frame %d: cell row %q under mutation for row %q", idx, ce.Row, a.GetMutation().GetRow())
+					}
+				}
+				d.Rows = append(d.Rows, a.GetMutation().GetRow())
+				d.Markers = append(d.Markers, markerOfPBMutation(a.GetMutation(), mine))
+			}
+		}
+		if off != len(cells) {
+			return d, fmt.Errorf("frame %d: multi cell counts cover %d of %d cells", idx, off, len(cells))
+		}
+	case "Scan":
+		m := &pb.ScanRequest{}
+		if err := proto.Unmarshal(req.Param, m); err != nil {
+			return d, fmt.Errorf("frame %d: ScanRequest: %w", idx, err)
+		}
+		d.Rows = append(d.Rows, m.GetScan().GetStartRow())
+		mk := ""
+		for _, at := range m.GetScan().GetAttribute() {
+			if at.GetName() == "marker" {
+				mk = string(at.GetValue())
+			}
+		}
+		d.Markers = append(d.Markers, mk)
+	default:
+		return d, fmt.Errorf("frame %d: unknown method %q", idx, d.Method)
+	}
+	return d, nil
 }
